@@ -106,6 +106,8 @@ class Check:
                     break
                 elif e.kind == "E":
                     self.count("invariant_walks", int(e.kv.get("walks", 0) or 0))
+                    if int(e.kv.get("shortw", 0) or 0):
+                        self.count("short_writes_injected", int(e.kv.get("shortw")))
         for rank, evs in enumerate(res.logs):
             for e in evs:
                 if e.kind == "R":
